@@ -495,7 +495,7 @@ fn sweep(dim: u32, max_order: u32) -> Sweep {
             }
         };
         let mut inv: Vec<u64> = vec![u64::MAX; total as usize];
-        let mut fail = |s: &mut Sweep, i: u64| {
+        let fail = |s: &mut Sweep, i: u64| {
             s.failures += 1;
             if s.first_fail.is_none() {
                 let (x, y, z) = unpack(i);
